@@ -63,6 +63,10 @@ PROPS = {
                    "keys consumed by its reader (incl. the shared error-source helpers) and required keys vs written keys; copy-paste detector; flag-dependent "
                    "accessors; per-source state coverage; truncate-before-write dominance; sibling shorthand expanders; reader-side installs followed by the "
                    "fit's own invalidation."),
+    "C14": ("c14", "Equivalent specifications: every absolute<->relative and covariance<->correlation conversion of the constraint and error classes has "
+                   "the documented canonical form and each pair composes to the identity; all four simple-error conversions use |reference| while the "
+                   "covariance is built from the signed product; scalar broadcast present in all three add_error implementations; wrapper keywords are "
+                   "forwarded with the flags their names state; percent shorthand."),
 }
 
 
